@@ -2,7 +2,7 @@ ENGINES = [
     {"name": "E1-crosshair", "path": "vlib/chx.py", "serves_properties": ["C13", "C18", "C20"],
      "kind_free_text": "CrossHair (z3) symbolic execution of harness conditions that call toasty's real functions; inductive cuts by stubbing recursive globals / the reducer; counterexamples replayed under plain CPython"},
 ]
-ENGINES.append({"name": "E2-symx-symnp", "path": "vlib/e2.py", "serves_properties": ["C02", "C08", "C11", "C14", "C15", "C16"],
+ENGINES.append({"name": "E2-symx-symnp", "path": "vlib/e2.py", "serves_properties": ["C02", "C06", "C08", "C09", "C11", "C12", "C14", "C15", "C16"],
      "kind_free_text": "own z3-backed proxy-object symbolic execution (vlib/symx.py) with a lazy symbolic numpy (vlib/symnp.py) patched into toasty's modules; claims proved per path; counterexamples and vacuity twins replayed with real numpy on the solver model's inputs"})
 NOTES = ("Solver-based checking of the real code. Exit 0 = all explored obligations held; inconclusive obligations are printed as INCONCLUSIVE and listed in evidence, never counted as held. "
          "Exit 2 = harness error. known_findings.json lists genuine defects (open / fixed).")
@@ -65,4 +65,23 @@ CHECKS["C16"] = dict(
     technique="z3 (QF_NRA polynomial identity) via own symbolic execution of the real parity functions on a symbolic linear WCS header; replays and vacuity twins run the same scenario with a genuine astropy WCS",
     text="For symbolic real CDELT/PC/CRPIX (any rotation, scale, skew, reference pixel, both starting parities, PC off-diagonals present or absent), symbolic height and pixel: parity sign = -sign(det CD); flip_parity negates it, reverses the rows, and CD'.((x+1, H-y) - CRPIX') = CD.((x+1, y+1) - CRPIX); ensure_negative_parity yields -1, keeps sky positions and is idempotent — for Image and ImageDescription. Unbounded over the reals (no size bound except height <= 4096 for the row claim).",
     note="astropy header<->WCS correspondence modelled by a stand-in (validated each run against real astropy via wcs_pix2world on solver-chosen numbers); non-linear distortions and float rounding outside.",
+)
+
+CHECKS["C06"] = dict(
+    engine="E2-symx-symnp", ref="DESIGN.md §4.6",
+    technique="z3 via own symbolic execution of the real sample_layer / ToastSampler.visit_callback / Pyramid.visit_leaves over an in-memory tile store; coordinate function and sampler uninterpreted, symbolic pixel",
+    text="For every tile of the layer (depth 0-2 quick, 3 thorough; one path per tile), symbolic pixel/channel, both coordinate systems, clobber and update mode (arbitrary prior tile), npy/fits/png defaults and parity-changing format overrides, filtered mode with a symbolic level-1 mask: the sampler receives exactly the coordinate arrays computed from that tile's own corners, and the file under the tile's position holds the sampler's result in display orientation (rows reversed iff the stored format is bottom-up), merged by the C15 update semantics; one file per accepted leaf.",
+    note="compiled subsample replaced by an uninterpreted coordinate function (C05 ties it to the geometry); sampler modelled as an arbitrary image per call with argument identity checked; codecs = identity; worker independence via C03. depth 0 is a recorded known finding.",
+)
+CHECKS["C09"] = dict(
+    engine="E2-symx-symnp", ref="DESIGN.md §4.5",
+    technique="z3 via own symbolic execution of the real MultiTanProcessor (global pixelisation, serial tiling, worker body) with symbolic input sizes / grid offsets / contents, witness-tile loop summary, in-memory tile store with locks",
+    text="For 1-2 (thorough: 3) inputs of symbolic size and symbolic integer placement on the common grid (mosaic <= 2^10 / 2^13 px), all-bottom-up or all-top-down storage, both input orders, serial body and worker body, fits and npy tiles: the width/height/CRPIX/levels handed to the builder are those of the assembled mosaic, the inspected (symbolic) deepest-level tile equals the study tile of the mosaic at a symbolic pixel with undefined pixels never overwriting defined ones, every lock is taken on that tile's own path and released, and the clean-up level equals the tile level.",
+    note="integer offsets only; overlapping inputs agree where both defined; WCS stand-in as validated in C16; set_position_from_wcs (external) not executed; cross-process contention is C10.",
+)
+CHECKS["C12"] = dict(
+    engine="E2-symx-symnp", ref="DESIGN.md §4.11",
+    technique="z3 (linear real arithmetic over the concrete tile geometry) via own symbolic execution of the real toast_tile_for_point / containment score / _div4 with a symbolic point; inductive rule + cover obligations for every tile up to the depth bound",
+    text="For every direction on the sphere (symbolic), both coordinate systems: the real level-1 selection returns a tile containing the point (lon + 2*pi*m likewise); one real loop iteration with symbolic scores picks the first zero-score child else the best; for EVERY tile of levels 1..D-1 (D = 4 quick, 6 thorough) the children produced by the real _div4 and scored by the real containment function cover the parent up to a 1e-12 rounding tolerance => by induction the depth-d tile contains the point; nesting cross-checked end-to-end to depth 2.",
+    note="Cartesian direction tied to longitude by sign facts of sin/cos only; concrete double geometry evaluated exactly; the 2-pixel accuracy of toast_pixel_for_point (lstsq) is not decided.",
 )
